@@ -21,6 +21,9 @@ CORPUS = [
     "struct g { struct { uint8 a; uint8 b; } in; union { uint16 w; uint8 h[2]; }; uint8 t[EOF]; };",
     "flag F { X, Y, Z = 0x10 };\nstruct h { F f:3; F g:5; uint8 m[2][3]; };",
     "struct i { wchar w[2]; uleb128 v; int8 s; };",
+    "typedef struct _m { uint8 q; uint16 r; } m1, m2, m3;",
+    "struct tag { uint8 z; } v1, v2;\nstruct usev { v1 a; v2 b; tag c; };",
+    "typedef union _n { uint16 w; uint8 h[2]; } n1, n2;",
 ]
 UNITS = [
     "struct un1 { uint8 a; uint16 b; };",
